@@ -149,6 +149,20 @@ func FindRetainLoops(p *Prog, pk *packages.Package, fd *ast.FuncDecl, fnName str
 		return true
 	})
 	ast.Inspect(fd.Body, func(n ast.Node) bool {
+		if ret, ok := n.(*ast.ReturnStmt); ok {
+			for _, res := range ret.Results {
+				if id, ok := ast.Unparen(res).(*ast.Ident); ok {
+					if o := info.Uses[id]; o != nil {
+						if _, has := assigned[o]; !has {
+							assigned[o] = "$return"
+						}
+					}
+				}
+			}
+		}
+		return true
+	})
+	ast.Inspect(fd.Body, func(n ast.Node) bool {
 		rs, ok := n.(*ast.RangeStmt)
 		if !ok || rs.Value == nil {
 			return true
@@ -539,6 +553,44 @@ func applyRetain(p *Prog, r *Report, rule string, short, recv, method string, sp
 	if pos == token.NoPos {
 		r.Undecided(rule, "anchor:"+key, "", "function not found")
 		return
+	}
+	// the rebuild may sit in an extracted helper: recv.F = helper(recv.F, …) with the loop returning its result
+	if fd, pk := p.FuncDecl(short, recv, method); fd != nil {
+		fname := spec.Field[strings.Index(spec.Field, ".")+1:]
+		ast.Inspect(fd.Body, func(nd ast.Node) bool {
+			as, ok := nd.(*ast.AssignStmt)
+			if !ok || len(as.Lhs) != 1 || len(as.Rhs) != 1 {
+				return true
+			}
+			se, ok := as.Lhs[0].(*ast.SelectorExpr)
+			if !ok || se.Sel.Name != fname {
+				return true
+			}
+			call, ok := ast.Unparen(as.Rhs[0]).(*ast.CallExpr)
+			if !ok {
+				return true
+			}
+			o := calleeObj(pk.TypesInfo, call)
+			if o == nil || o.Exported() || o.Pkg() == nil || o.Pkg() != pk.Types {
+				return true
+			}
+			// the helper's declaration
+			for _, file := range pk.Syntax {
+				for _, d := range file.Decls {
+					hd, ok := d.(*ast.FuncDecl)
+					if !ok || pk.TypesInfo.Defs[hd.Name] != o {
+						continue
+					}
+					for _, hl := range FindRetainLoops(p, pk, hd, short+"."+hd.Name.Name) {
+						if hl.Field == "$return" {
+							hl.Field = spec.Field
+							loops = append(loops, hl)
+						}
+					}
+				}
+			}
+			return true
+		})
 	}
 	n := 0
 	for _, rl := range loops {
